@@ -49,7 +49,16 @@ pub enum EncodeError<FormatError> {
 pub fn parse_multiformat_bytes(
     data: &[u8],
 ) -> Result<(SerializationCodec, &[u8]), varint_decode::Error> {
-    varint_decode::u32(data)
+    let (codec, rest) = varint_decode::u32(data)?;
+
+    // the decoder silently drops the bits of the fifth byte that don't fit into u32, so a tag that
+    // isn't the encoding of the decoded codec belongs to another (bigger) codec
+    let mut buf = varint_encode::u32_buffer();
+    if varint_encode::u32(codec, &mut buf).len() != data.len() - rest.len() {
+        return Err(varint_decode::Error::Overflow);
+    }
+
+    Ok((codec, rest))
 }
 
 pub fn encode_multiformat<Value, Fmt: Format<Value>>(
